@@ -67,6 +67,26 @@ def gen_session(rng, n):
         yield f"c13.session {cap} {','.join(ops)}"
 
 
+def gen_glob_session(rng, n):
+    """sessions whose ONE follow command matches several files (a glob): some of its reads hold a slot, the others queue;
+    the session ends while another session's read holds or waits for a slot of the same limiter"""
+    yield "c13.session 2 N0x1,N1g3,K1,N2x1,K0,K2"
+    yield "c13.session 2 N0g3,N1x1,K0,N2x2,K1,K2"
+    for _ in range(n):
+        cap = rng.choice([2, 2, 3])
+        ops, live, nxt = [], [], 0
+        for _ in range(rng.randrange(4, 9)):
+            if live and rng.random() < 0.45:
+                s = rng.choice(live)
+                live.remove(s)
+                ops.append(f"K{s}")
+            else:
+                ops.append(f"N{nxt}{rng.choice('gggx')}{rng.choice([1, 2, 3, 4])}")
+                live.append(nxt)
+                nxt += 1
+        yield f"c13.session {cap} {','.join(ops)}"
+
+
 def gen(rng, budget, tier):
     # the server's own continuous jobs against the tail limit (a real dserver process, about 8 s)
     yield "c13.jobs 1 2"
@@ -104,6 +124,8 @@ def gen(rng, budget, tier):
                 ended.add(i)
         if ops:
             yield f"c13.script {cap} {','.join(ops)}"
+    # seeded round 6 (added last: earlier streams keep their cases): one command, several files
+    yield from gen_glob_session(rng, 12 if tier == "quick" else 300)
 
 
 def _oracle_for(case, s):
